@@ -12,6 +12,9 @@ from .ops import vconst, is_num, to_real_z, to_int_z
 
 import math as _math
 
+STR_IS_INT = z3.Function("py_str_is_int_literal", S, B)
+STR_TO_INT = z3.Function("py_int_of_str", S, I)
+
 
 class Builtins:
     ext_attrs_plain = {
@@ -227,6 +230,23 @@ class Builtins:
                 # truncation toward zero
                 f = z3.ToInt(v.z)
                 return VInt(z3.If(v.z >= 0, f, z3.If(z3.ToReal(f) == v.z, f, f + 1)))
+            if v.kind == "str":
+                # int(str): an uninterpreted parse; ValueError where the text is not an integer literal (a branch of the caller)
+                if v.const is not None:
+                    try:
+                        return VInt(int(v.const))
+                    except ValueError:
+                        from .interp import PyRaise
+                        raise PyRaise(VExc("ValueError"), node)
+                ok = STR_IS_INT(v.z)
+                if not self.spec:
+                    if self.ctx.no_branch:
+                        self.ctx.oblige("safety.int_of_integer_literal", ok, node)
+                        self.ctx.assume(ok)
+                    elif not self.ctx.branch(ok, f"int_of_str@{getattr(node, 'lineno', 0)}"):
+                        from .interp import PyRaise
+                        raise PyRaise(VExc("ValueError"), node)
+                return VInt(STR_TO_INT(v.z))
         if name == "bool":
             return VBool(z3.simplify(self.truth(args[0], node)))
         if name == "str":
@@ -752,7 +772,22 @@ class Builtins:
         return new
 
     def slist_slice(self, o, lo, hi, st, node):
-        raise EngineError(f"slice of SMT list (line {getattr(node, 'lineno', '?')})")
+        """o[lo:hi] of an SMT list: a new list (CPython clamps the bounds; negative bounds count from the end)"""
+        if st is not None and not (st.kind == "none" or (st.kind == "int" and st.const == 1)):
+            raise EngineError(f"slice of SMT list with a step (line {getattr(node, 'lineno', '?')})")
+        n = self.ctx.slen(o.z)
+        mx = lambda a, b: z3.If(a >= b, a, b)
+        mn = lambda a, b: z3.If(a <= b, a, b)
+
+        def norm(v, default):
+            if v is None or v.kind == "none":
+                return default
+            z = to_int_z(self.unwrap(v, node))
+            return z3.simplify(z3.If(z < 0, mx(z + n, z3.IntVal(0)), mn(z, n)))
+        a, b = norm(lo, z3.IntVal(0)), norm(hi, n)
+        new = self.new_slist(o.elem, "slice")
+        self.ctx.set_list(new, z3.simplify(mx(b - a, z3.IntVal(0))), ("fn", lambda k: self.ctx.item_terms(o, a + k)))
+        return new
 
     def slist_remove(self, lst, x, node):
         raise EngineError("remove on SMT list: needs a contract-level model")
